@@ -131,9 +131,13 @@ func init() {
 		for _, c := range [][]int64{{0, 0, 0}, {0, 1, 0}, {0, 2, 2}, {1, 2, 0}, {1, 0, 2}, {2, 1, 0}, {1, 1, 0}, {2, 2, 2}} {
 			quick = append(quick, &Job{Pkg: "", Func: "ZZ_C07_PanicAfterParentCancel", Args: c, Bounds: bp})
 		}
+		bcr := "the transport read fails with a non-timeout net.Error after `cut` bytes of a frame, with a shipped frame codec (length-field / varint / fixed / delimiter) in the pipeline; exception handler absent / forwarding / swallowing"
+		for _, c := range [][]int64{{0, 0, 0}, {0, 1, 1}, {0, 2, 2}, {0, 4, 1}, {0, 3, 0}, {1, 0, 1}, {1, 2, 0}, {1, 3, 2}, {2, 1, 2}, {2, 2, 0}, {3, 1, 1}, {3, 2, 2}} {
+			quick = append(quick, &Job{Pkg: "zzharness", Func: "ZZ_C07_CodecReadFault", Args: c, Bounds: bcr})
+		}
 		Specs["C07"] = &Spec{
 			Jobs: jobsBy(quick, thorough), Labels: labelFilter("c07-"),
-			MustReach: []string{"c07-bomb-fired", "c07-closed", "c07-open", "c07-fault-closed", "c07-fault-reported", "c07-close-then-panic-done", "c07-parent-cancel-done"},
+			MustReach: []string{"c07-bomb-fired", "c07-closed", "c07-open", "c07-fault-closed", "c07-fault-reported", "c07-close-then-panic-done", "c07-parent-cancel-done", "c07-codec-read-fault-done"},
 			Bounds: map[string]string{
 				"quick":    "one third of the 90 (entry, event, panic value, exception-handler mode) combinations with two candidate handler positions, plus 12 of the 60 combinations with the exception handler in front of the failing handler; 7 transport-fault scenarios",
 				"thorough": "all 150 combinations; 6 more transport-fault scenarios",
